@@ -705,11 +705,11 @@ Qed.
 Definition some_active_now (s : state) : Prop := exists v r, lookup v (st_vals s) = Some r /\ v_status r = SActive.
 
 (* export + import re-establishes the invariant from ANY state in which it held, whatever was queued *)
-Lemma Inv_genesis : forall s, Inv s -> some_active_now s ->
-  Inv (fst (genesis_import s)) /\ snd (genesis_import s) = ROk /\
-  (forall k, In k (st_cset (fst (genesis_import s))) <-> exists v r, lookup v (st_vals s) = Some r /\ v_status r = SActive /\ v_cons r = k).
+Lemma Inv_genesis : forall over s, Inv s -> some_active_now s ->
+  Inv (fst (genesis_import over s)) /\ snd (genesis_import over s) = ROk /\
+  (forall k, In k (st_cset (fst (genesis_import over s))) <-> exists v r, lookup v (st_vals s) = Some r /\ v_status r = SActive /\ v_cons r = k).
 Proof.
-  intros s I (a & ra & Ha & Sa).
+  intros over s I (a & ra & Ha & Sa).
   pose proof (inv_vals_sorted s I) as Hvs.
   set (act := filter (fun e : Z * vrec => is_active (v_status (snd e))) (st_vals s)).
   assert (Hact : forall v r, In (v, r) act <-> lookup v (st_vals s) = Some r /\ v_status r = SActive).
@@ -779,10 +779,11 @@ Definition good (cfg : config) (s : state) (o : op) : Prop :=
   | OUpPause vs => goods_list (fun a v => Some (sk_pause a v)) good_uppause s vs
   | OEndBlock => some_active (joined s)
   | ORotate v v' => good_rotate s v v'
-  | OGenesis => some_active_now s
+  | OGenesis _ => some_active_now s
+  | OSetProp _ _ _ => True
   end.
 Fixpoint goods (cfg : config) (s : state) (ops : list op) : Prop :=
-  match ops with [] => True | o :: r => good cfg s o /\ goods cfg (fst (step cfg s o)) r end.
+  match ops with [] => True | o :: r => good cfg s o /\ goods (next_cfg cfg o) (fst (step cfg s o)) r end.
 
 Lemma by_cons_lookup : forall s k v r, by_cons s k = Some (v, r) -> lookup v (st_vals s) = Some r.
 Proof.
@@ -912,20 +913,21 @@ Proof.
     destruct (end_block_applicable_and_equal s I G) as (c' & E & _ & _ & I'). rewrite E. exact I'.
   - (* address rotation *) now apply (Inv_rotate cfg).
   - (* genesis export + import *) cbn [step]. now apply Inv_genesis.
+  - (* settings change *) cbn [step fst]. exact I.
 Qed.
 
-Theorem run_preserves_Inv : forall cfg ops s, Inv s -> goods cfg s ops -> Inv (run cfg s ops).
+Theorem run_preserves_Inv : forall ops cfg s, Inv s -> goods cfg s ops -> Inv (run cfg s ops).
 Proof.
-  intros cfg. unfold run. induction ops as [|o ops IH]; intros s I G; [assumption|].
-  destruct G as [G1 G2]. cbn [fold_left]. apply IH; [apply step_preserves_Inv; auto|exact G2].
+  induction ops as [|o ops IH]; intros cfg s I G; [assumption|].
+  destruct G as [G1 G2]. cbn [run]. apply IH; [apply step_preserves_Inv; auto|exact G2].
 Qed.
 
-Lemma run_app : forall cfg a b s, run cfg s (a ++ b) = run cfg (run cfg s a) b.
-Proof. intros. unfold run. now rewrite fold_left_app. Qed.
-Lemma goods_app : forall cfg a b s, goods cfg s (a ++ b) <-> goods cfg s a /\ goods cfg (run cfg s a) b.
+Lemma run_app : forall a cfg b s, run cfg s (a ++ b) = run (cfg_after cfg a) (run cfg s a) b.
+Proof. induction a as [|o a IH]; intros; cbn; [reflexivity|apply IH]. Qed.
+Lemma goods_app : forall a cfg b s, goods cfg s (a ++ b) <-> goods cfg s a /\ goods (cfg_after cfg a) (run cfg s a) b.
 Proof.
-  intros cfg. induction a as [|o a IH]; intros b s; cbn; [tauto|].
-  rewrite IH. unfold run. cbn. tauto.
+  induction a as [|o a IH]; intros cfg b s; cbn; [tauto|].
+  rewrite IH. tauto.
 Qed.
 
 (* C05, full history form: at EVERY end block of a history inside the alphabet, from any state
@@ -1044,10 +1046,11 @@ Definition goodb (cfg : config) (s : state) (o : op) : bool :=
   | ORotate v v' => negb (smem v (st_rm s)) && negb (smem v (st_re s))
                     && (match lookup v' (st_vals s) with None => true | Some _ => false end)
                     && (match lookup v' (st_pend s) with None => true | Some _ => false end)
-  | OGenesis => some_activeb s
+  | OGenesis _ => some_activeb s
+  | OSetProp _ _ _ => true
   end.
 Fixpoint goodsb (cfg : config) (s : state) (ops : list op) : bool :=
-  match ops with [] => true | o :: r => goodb cfg s o && goodsb cfg (fst (step cfg s o)) r end.
+  match ops with [] => true | o :: r => goodb cfg s o && goodsb (next_cfg cfg o) (fst (step cfg s o)) r end.
 
 Lemma goods_listb_sound : forall A (f : state -> A -> option state) gb (g : state -> A -> Prop),
   (forall s x, gb s x = true -> g s x) -> forall l s, goods_listb f gb s l = true -> goods_list f g s l.
@@ -1088,9 +1091,9 @@ Proof.
   - unfold some_activeb in H. apply existsb_exists in H as ([v r] & A & B). cbn in B.
     destruct (lookup v (st_vals s)) as [r'|] eqn:E; [|discriminate]. exists v, r'. split; auto. now apply is_active_true.
 Qed.
-Lemma goodsb_sound : forall cfg ops s, goodsb cfg s ops = true -> goods cfg s ops.
+Lemma goodsb_sound : forall ops cfg s, goodsb cfg s ops = true -> goods cfg s ops.
 Proof.
-  induction ops as [|o ops IH]; intros s H; cbn in *; auto.
+  induction ops as [|o ops IH]; intros cfg s H; cbn [goodsb goods] in *; auto.
   apply andb_true_iff in H as [H1 H2]. split; [now apply goodb_sound|now apply IH].
 Qed.
 
@@ -1546,7 +1549,7 @@ Definition edge_ok (o : op) (v : Z) (a b : status) : Prop :=
   | OUnjail t => v = t /\ a = SJailed /\ b = SInactive
   | OReset => b = SActive
   | OUpPause vs => In v vs /\ a = SActive /\ b = SPaused
-  | OClaim _ _ _ | ONewBlock _ | OEndBlock | OGenesis => False
+  | OClaim _ _ _ | ONewBlock _ | OEndBlock | OGenesis _ | OSetProp _ _ _ => False
   | ORotate _ t' => v = t'     (* only when the target address already held a validator record, which the real message excludes *)
   end.
 
@@ -1582,9 +1585,10 @@ Proof.
     destruct (v =? v') eqn:Ev; zb; [assumption|]. rewrite lookup_del in Hb.
     destruct (v =? v0); [discriminate|]. unfold status_at in Ha. congruence.
   - (* genesis import keeps every record *)
-    exfalso. assert (E : st_vals (fst (genesis_import s)) = st_vals s).
+    exfalso. assert (E : st_vals (fst (genesis_import over s)) = st_vals s).
     { unfold genesis_import. destruct (genesis_updates s); [reflexivity|]. destruct (apply_updates _ _); reflexivity. }
     cbn [step] in Hb. unfold status_at in Ha, Hb. rewrite E in Hb. congruence.
+  - (* a settings change touches no validator *) cbn [step fst] in Hb. congruence.
 Qed.
 
 Theorem only_allowed_edges_refuted : ~ C15_only_allowed_edges_statement.
@@ -1706,11 +1710,15 @@ Proof.
     destruct (x =? v); [discriminate|apply N].
   - eapply nonneg_ext; [|exact N]. unfold genesis_import.
     destruct (genesis_updates s); [reflexivity|]. destruct (apply_updates _ _); reflexivity.
+  - exact N.
 Qed.
-Theorem rank_streak_nonneg : forall cfg ops s, cfg_ok cfg -> nonneg s -> nonneg (run cfg s ops).
+(* every settings change keeps the settings well-formed (what the gov module's validation guarantees) *)
+Fixpoint cfgs_ok (cfg : config) (ops : list op) : Prop :=
+  match ops with [] => True | o :: r => cfg_ok cfg /\ cfgs_ok (next_cfg cfg o) r end.
+Theorem rank_streak_nonneg : forall ops cfg s, cfgs_ok cfg ops -> nonneg s -> nonneg (run cfg s ops).
 Proof.
-  intros cfg. unfold run. induction ops as [|o ops IH]; intros s Hc N; [assumption|].
-  cbn [fold_left]. apply IH; auto. now apply rank_streak_nonneg_step.
+  induction ops as [|o ops IH]; intros cfg s Hc N; [assumption|].
+  destruct Hc as [Hc1 Hc2]. cbn [run]. apply IH; auto. now apply rank_streak_nonneg_step.
 Qed.
 Lemma s_gen_nonneg : nonneg s_gen /\ cfg_ok cfg0.
 Proof.
@@ -1725,7 +1733,7 @@ Definition h_rotate_genesis : list op :=
   h_setup ++
   [ONewBlock 5; OVotes [(0, true); (1, true); (2, true)]; ORotate 1 5; OPause 5; OEndBlock;
    ONewBlock 5; OVotes [(0, true); (2, true)]; OEvidence [(2, 12, 1012)]; OEndBlock;
-   OGenesis;
+   OGenesis [];
    ONewBlock 5; OVotes [(0, true)]; OUnpause 5; OClaim 1 7 true; OEndBlock].
 Lemma h_rotate_genesis_good : goods cfg0 s_gen h_rotate_genesis.
 Proof. apply goodsb_sound. vm_compute. reflexivity. Qed.
@@ -1745,19 +1753,19 @@ Lemma rotate_while_reactivating_refuted : ~ C05_statement_for [OUnpause 1; ORota
 Proof. refute_with cfg0 s_paused1 s_paused1_Inv. vm_compute in Hh. discriminate. Qed.
 
 (* export + import re-establishes "consensus set = active validators" from any state of the invariant *)
-Theorem genesis_import_reestablishes : forall s, Inv s -> some_active_now s ->
-  Inv (fst (genesis_import s)) /\ snd (genesis_import s) = ROk /\
-  (forall k, In k (st_cset (fst (genesis_import s))) <-> exists v r, lookup v (st_vals s) = Some r /\ v_status r = SActive /\ v_cons r = k).
+Theorem genesis_import_reestablishes : forall over s, Inv s -> some_active_now s ->
+  Inv (fst (genesis_import over s)) /\ snd (genesis_import over s) = ROk /\
+  (forall k, In k (st_cset (fst (genesis_import over s))) <-> exists v r, lookup v (st_vals s) = Some r /\ v_status r = SActive /\ v_cons r = k).
 Proof. exact Inv_genesis. Qed.
 (* with nobody active the SDK module manager panics in InitChain *)
-Lemma genesis_import_empty_refuted : ~ C05_statement_for [OEvidence [(0, 10, 1000)]; OGenesis].
+Lemma genesis_import_empty_refuted : ~ C05_statement_for [OEvidence [(0, 10, 1000)]; OGenesis []].
 Proof. refute_with cfg0 s_gen s_gen_Inv. vm_compute in Hh. discriminate. Qed.
 
 (* what export + import and rotation LOSE (C15): the jail record is neither exported nor moved, so a
    validator jailed inside the unjail window can no longer be released by an unjail proposal *)
 Lemma unjail_lost_by_genesis_and_rotation :
   snd (step cfg0 s_jailed1 (OUnjail 1)) = ROk /\
-  snd (step cfg0 (fst (step cfg0 s_jailed1 OGenesis)) (OUnjail 1)) = RRej /\
+  snd (step cfg0 (fst (step cfg0 s_jailed1 (OGenesis []))) (OUnjail 1)) = RRej /\
   snd (step cfg0 (fst (step cfg0 s_jailed1 (ORotate 1 5))) (OUnjail 5)) = RRej /\
   status_at (fst (step cfg0 s_jailed1 (ORotate 1 5))) 5 = Some SJailed.
 Proof. vm_compute. auto. Qed.
@@ -1829,3 +1837,15 @@ Proof.
   { apply forallb_forall. intros u Hu. destruct (eb_powers s u Hu) as [->| ->]; reflexivity. }
   rewrite Hp1, Hp2. reflexivity.
 Qed.
+
+(* the allowance IN FORCE decides: three misses under MaxMischance 4 leave the validator active; after the
+   limit is lowered to 1 by a proposal the very next miss inactivates it (mischance 4 > 1, although it
+   never "stepped over" 2) *)
+Definition cfg_loose : config := mkCfg 0 4 1 500000000000000000 1 60 600 1000 5.
+Lemma lowered_max_mischance_applies_at_next_miss :
+  let miss := [ONewBlock 5; OVotes [(0, true); (1, false); (2, true)]; OEndBlock] in
+  let s3 := run cfg_loose s_three (miss ++ miss ++ miss) in
+  status_at s3 1 = Some SActive /\
+  status_at (run cfg_loose s3 (OSetProp 1 1 true :: miss)) 1 = Some SInactive /\
+  status_at (run cfg_loose s3 (OSetProp 1 1 false :: miss)) 1 = Some SActive.
+Proof. vm_compute. auto. Qed.
